@@ -171,9 +171,11 @@ class ConfigTargetVisibility(object):
             return (False, None)
         if type(node.item) is kconfiglib.Symbol or type(node.item) is kconfiglib.Choice:
             dependencies = node.item.direct_dep  # "depends on" for configs
-            name_id = node.item.name
+            # Symbols and named choices have separate namespaces (config X / choice X), and a menu title may spell the
+            # name of a symbol: remember an item under its kind and its name
+            name_id = (type(node.item), node.item.name)
             # defined only in one source file; unnamed choices have no name to be remembered under
-            simple_def = len(node.item.nodes) <= 1 and name_id is not None
+            simple_def = len(node.item.nodes) <= 1 and node.item.name is not None
             # Probably it is not necessary to check the default statements.
         else:
             # A menu is hidden when either its "visible if" or its own "depends on" (node.dep) is a hard n for this
